@@ -612,3 +612,9 @@ Proof.
   intros H1 H2 H3. destruct (loop_step_thm pol insts arr H1 H2 H3) as (A & B & C & _).
   split; [exact A|]. rewrite <- B. exact C.
 Qed.
+
+(* LoopOutputStep.run does not leave its loop before it has read a termination token *)
+Lemma loop_run_no_term pol l : no_term l -> lfinal (loop_run pol l) = None.
+Proof.
+  intros H. destruct (running_fold pol l linit running_linit H) as (_ & F & _). exact F.
+Qed.
